@@ -12,6 +12,8 @@ name, in append order; `r.Topics` is that map listed by ascending name; each par
 (Partition, Offset) — Go's sort.Slice is not stable, so the order inside a (Partition, Offset) tie is
 unspecified; the model uses a stable sort and comparisons canonicalise.
 -/
+import KafkaVerif.Gen.Offsets
+
 namespace KV.ListOffsets
 
 structure ReqPart where
@@ -54,7 +56,9 @@ def split (r : Request) : List Request :=
   (flat r).map fun (t, p) => { replicaID := r.replicaID, isolation := r.isolation, topics := [(t, [p])] }
 
 /-- the UNKNOWN placeholder Merge writes for every partition of a failed part -/
-def placeholder (p : ReqPart) : ResPart := ⟨p.partition, -1, -1, -1, -1⟩
+def placeholder (p : ReqPart) : ResPart :=
+  ⟨p.partition, Gen.Offsets.placeholderError, Gen.Offsets.placeholderTimestamp, Gen.Offsets.placeholderOffset,
+   Gen.Offsets.placeholderLeaderEpoch⟩
 
 /-- the `timestamps[i]` index of Merge: last entry wins, as with a Go map -/
 def requestedTs (req : Request) (t : String) (p : Int) : Option Int :=
@@ -122,8 +126,8 @@ def merge (reqs : List Request) (rs : List Result) : Except String Response :=
 
 /-! ### Client.ListOffsets -/
 
-def firstOffset : Int := -2
-def lastOffset : Int := -1
+def firstOffset : Int := Gen.Offsets.firstOffset
+def lastOffset : Int := Gen.Offsets.lastOffset
 
 /-- kafka.PartitionOffsets; `offsets` is the map offset → timestamp (ms), `error` the Kafka error code (0 = nil) -/
 structure PartitionOffsets where
@@ -149,25 +153,31 @@ def clientRequest (isolation : Int) (topics : List (String × List (Int × Int))
   { replicaID := -1, isolation := isolation,
     topics := topics.map fun (t, rs) => (t, rs.map fun (p, ts) => ⟨p, -1, ts⟩) }
 
-/-- third loop: fold the merged response into the per-partition records.  A partition of the response that
-was never requested reads the zero record (Go map miss) — `offsets` would be a nil map there and the
+/-- body of the third loop for one (topic, partition entry) of the merged response.  A partition of the response
+that was never requested reads the zero record (Go map miss) — `offsets` would be a nil map there and the
 assignment panics; modelled as `none`. -/
+def clientStep (m : List ((String × Int) × PartitionOffsets)) (e : String × ResPart) :
+    Option (List ((String × Int) × PartitionOffsets)) :=
+  let t := e.1
+  let p := e.2
+  match m.lookup (t, p.partition) with
+  | none =>
+    if p.timestamp == firstOffset || p.timestamp == lastOffset then
+      let z : PartitionOffsets := ⟨0, 0, 0, [], 0⟩
+      let z := if p.timestamp == firstOffset then { z with first := p.offset } else { z with last := p.offset }
+      some (ainsert m (t, p.partition) (if p.error != 0 then { z with error := p.error } else z))
+    else none
+  | some cur =>
+    let cur :=
+      if p.timestamp == firstOffset then { cur with first := p.offset }
+      else if p.timestamp == lastOffset then { cur with last := p.offset }
+      else { cur with offsets := ainsert cur.offsets p.offset p.timestamp }
+    let cur := if p.error != 0 then { cur with error := p.error } else cur
+    some (ainsert m (t, p.partition) cur)
+
+/-- third loop: fold the merged response into the per-partition records -/
 def clientApply (init : List ((String × Int) × PartitionOffsets)) (res : Response) :
     Option (List ((String × Int) × PartitionOffsets)) :=
-  (res.topics.flatMap fun (t, ps) => ps.map fun p => (t, p)).foldlM (fun m (t, p) =>
-    match m.lookup (t, p.partition) with
-    | none =>
-      if p.timestamp == firstOffset || p.timestamp == lastOffset then
-        let z : PartitionOffsets := ⟨0, 0, 0, [], 0⟩
-        let z := if p.timestamp == firstOffset then { z with first := p.offset } else { z with last := p.offset }
-        some (ainsert m (t, p.partition) (if p.error != 0 then { z with error := p.error } else z))
-      else none
-    | some cur =>
-      let cur :=
-        if p.timestamp == firstOffset then { cur with first := p.offset }
-        else if p.timestamp == lastOffset then { cur with last := p.offset }
-        else { cur with offsets := ainsert cur.offsets p.offset p.timestamp }
-      let cur := if p.error != 0 then { cur with error := p.error } else cur
-      some (ainsert m (t, p.partition) cur)) init
+  (res.topics.flatMap fun (t, ps) => ps.map fun p => (t, p)).foldlM clientStep init
 
 end KV.ListOffsets
